@@ -345,7 +345,15 @@ func (p *Program) funcValue(v ssa.Value, depth int) *ssa.Function {
 		}
 
 		if al != nil {
-			if st := SingleStore(al); st != nil {
+			var st *ssa.Store
+
+			if fv, ok := x.X.(*ssa.FreeVar); ok {
+				st = p.singleStoreSeenBy(al, fv)
+			} else if only := SingleStore(al); only != nil && only.Block().Parent() == x.Block().Parent() && dominates(only.Block(), x.Block()) {
+				st = only
+			}
+
+			if st != nil {
 				return p.funcValue(st.Val, depth+1)
 			}
 		}
@@ -452,7 +460,7 @@ func (p *Program) desc(v ssa.Value, depth int) string {
 	if u, ok := v.(*ssa.UnOp); ok && u.Op == token.MUL {
 		if fv, ok := u.X.(*ssa.FreeVar); ok {
 			if al := p.freeVarAlloc(fv); al != nil {
-				if st := SingleStore(al); st != nil {
+				if st := p.singleStoreSeenBy(al, fv); st != nil {
 					return "free:" + p.desc(st.Val, depth)
 				}
 			}
@@ -536,7 +544,7 @@ func (p *Program) desc(v ssa.Value, depth int) string {
 			return x.Op.String() + p.desc(x.X, depth)
 		}
 	case *ssa.FieldAddr:
-		return p.desc(x.X, depth) + "." + fieldName(x.X, x.Field)
+		return p.desc(copySource(x.X, x.Block()), depth) + "." + fieldName(x.X, x.Field)
 	case *ssa.Field:
 		return p.desc(x.X, depth) + "." + fieldName(x.X, x.Field)
 	case *ssa.BinOp:
@@ -900,6 +908,92 @@ func (p *Program) goSiteArg(prm *ssa.Parameter) ssa.Value {
 		if q == prm {
 			return g.Call.Args[i]
 		}
+	}
+
+	return nil
+}
+
+// copySource: a local that is assigned exactly once, as a whole, from a load of another location
+// (a by-value parameter spilled by an inlined helper, `tmp := *p`) is described as that location,
+// so that the fields of the copy are the fields of what was copied.
+func copySource(addr ssa.Value, at *ssa.BasicBlock) ssa.Value {
+	for range 4 {
+		al, ok := addr.(*ssa.Alloc)
+		if !ok {
+			return addr
+		}
+
+		st := SingleStore(al)
+		if st == nil || at == nil || st.Block() == nil || st.Block().Parent() != at.Parent() || !dominates(st.Block(), at) {
+			return addr
+		}
+
+		load, ok := st.Val.(*ssa.UnOp)
+		if !ok || load.Op != token.MUL {
+			return addr
+		}
+
+		// only copies of another local (or of a field of one): a copy of a slice element, of a field
+		// behind a pointer etc. keeps its own name
+		base := load.X
+		for {
+			fa, ok := base.(*ssa.FieldAddr)
+			if !ok {
+				break
+			}
+
+			base = fa.X
+		}
+
+		if _, ok := base.(*ssa.Alloc); !ok {
+			return addr
+		}
+
+		addr = load.X
+	}
+
+	return addr
+}
+
+// singleStoreSeenBy returns the only store to the captured local al if the function literal that
+// reads it through fv always sees that value: the store is made in al's own function and dominates
+// the creation of the (outermost) literal that captures al. A variable that is assigned on one
+// branch only still holds its zero value on the other.
+func (p *Program) singleStoreSeenBy(al *ssa.Alloc, fv *ssa.FreeVar) *ssa.Store {
+	st := SingleStore(al)
+	if st == nil || st.Block() == nil || st.Block().Parent() != al.Parent() {
+		return nil
+	}
+
+	// outermost literal on the chain from fv's function up to al's function
+	fn := fv.Parent()
+	for fn != nil && fn.Parent() != nil && fn.Parent() != al.Parent() {
+		fn = fn.Parent()
+	}
+
+	if fn == nil || fn.Parent() != al.Parent() {
+		return nil
+	}
+
+	mc := p.ClosureSite(fn)
+	if mc == nil || mc.Block() == nil {
+		return nil
+	}
+
+	if st.Block() == mc.Block() {
+		for _, in := range st.Block().Instrs {
+			if in == ssa.Instruction(st) {
+				return st
+			}
+
+			if in == ssa.Instruction(mc) {
+				return nil
+			}
+		}
+	}
+
+	if dominates(st.Block(), mc.Block()) {
+		return st
 	}
 
 	return nil
